@@ -18,6 +18,7 @@ from pathlib import Path
 from . import emit
 
 FILES = ["server.py", "client.py", "common.py", "pathio.py"]
+QUERIES = {"isEnabledFor", "getEffectiveLevel"}
 LEVELS = {"debug", "info", "warning", "warn", "error", "critical", "fatal", "exception", "log"}
 PRESERVING = {"decode", "encode", "rstrip", "lstrip", "strip", "lower", "upper", "casefold", "title", "swapcase", "format", "expandtabs", "ljust", "rjust", "center", "zfill", "replace", "removeprefix", "removesuffix"}
 
@@ -148,6 +149,8 @@ class Module:
                     pp = self.parent.get(p)
                     if isinstance(pp, ast.Call) and pp.func is p:
                         if p.attr in LEVELS:
+                            continue
+                        if n.id in self.loggers and p.attr in QUERIES:  # pure queries: no record is emitted
                             continue
                         if n.id in self.logging_mod and p.attr == "getLogger" and isinstance(self.parent.get(pp), ast.Assign) and self.parent.get(pp) in self.tree.body:
                             continue
@@ -348,7 +351,7 @@ class Module:
             if isinstance(a, ast.Starred):
                 raise Unclassified(f"{self.file}:{call.lineno}: *args in logging call")
         if level == "log":
-            if not args or not (isinstance(args[0], ast.Attribute) or isinstance(args[0], ast.Constant)):
+            if not args or not isinstance(args[0], (ast.Attribute, ast.Constant, ast.Name)):
                 raise Unclassified(f"{self.file}:{call.lineno}: logger.log with a computed level")
             level = "log:" + src(args[0])
             args = args[1:]
